@@ -272,7 +272,7 @@ pub fn replay<E: Engine>(engine: &E, doc: &Value, path: &Path, verif_dir: &Path)
         worker: 0,
         scratch: scratch_dir(verif_dir, 0),
     };
-    let hang_secs: u64 = std::env::var("VERIF_HANG_SECS").ok().and_then(|s| s.parse().ok()).unwrap_or(240);
+    let hang_secs: u64 = std::env::var("VERIF_HANG_SECS").ok().and_then(|s| s.parse().ok()).unwrap_or(150);
     let done = std::sync::atomic::AtomicBool::new(false);
     let out = std::thread::scope(|s| {
         let done = &done;
@@ -375,7 +375,7 @@ pub fn run_batch<E: Engine>(engine: &E, opt: &Options) -> i32 {
     let inflight: Vec<AtomicU64> = (0..workers).map(|_| AtomicU64::new(0)).collect();
     let finished_runs = AtomicU64::new(0);
     let batch_done = std::sync::atomic::AtomicBool::new(false);
-    let hang_secs: u64 = std::env::var("VERIF_HANG_SECS").ok().and_then(|s| s.parse().ok()).unwrap_or(240);
+    let hang_secs: u64 = std::env::var("VERIF_HANG_SECS").ok().and_then(|s| s.parse().ok()).unwrap_or(150);
 
     std::thread::scope(|s| {
         // watchdog: code under test that never returns (and has no scheduling
